@@ -71,46 +71,55 @@ func checkC06(c *Ctx) {
 		c.Unresolved("C06.2", "ClientIO", "anchor missing")
 		return
 	}
-	fl := NewFlow(p, exec)
 	var stateUpdates []ssa.Instruction
-	check := func(in ssa.Instruction, what, cmd string) {
-		facts := fl.At(in)
-		ok := falseOf(facts, is(kCIODup+cmd+")"))
-		c.Check(ok, "C06.2", "Exec: "+what+" only for non-duplicates", p.InstrPos(in),
-			what+" is reached only under !isDuplicate(cmd)", what+" reachable for an already executed (client id, sequence number); facts: "+join(facts.Sorted()))
-		stateUpdates = append(stateUpdates, in)
-	}
 	n := 0
-	eachInstr(exec, func(in ssa.Instruction) {
-		switch x := in.(type) {
-		case *ssa.MapUpdate:
-			if fl.K.Key(x.Map) == "p0->"+kCIO+"lastExecutedSeqNum" {
-				n++
-				k, v := fl.K.Key(x.Key), fl.K.Key(x.Value)
-				cmd := strings.TrimSuffix(k, "->"+kCmd+"ClientID")
-				okKV := strings.HasSuffix(k, "->"+kCmd+"ClientID") && v == cmd+"->"+kCmd+"SequenceNumber"
-				c.Check(okKV, "C06.2", "Exec: records (client id -> sequence number) of the executed command", p.InstrPos(in),
-					"lastExecutedSeqNum[cmd.ClientID] = cmd.SequenceNumber", "update is ["+k+"] = "+v)
-				check(in, "the sequence-number record", cmd)
-			}
-		case *ssa.Call:
-			if x.Call.IsInvoke() && x.Call.Method.Name() == "Write" && fl.K.Key(x.Call.Value) == "p0->"+kCIO+"hash" {
-				n++
-				d := fl.K.Key(x.Call.Args[0])
-				check(in, "the state digest update", strings.TrimSuffix(d, "->"+kCmd+"Data"))
-			}
-		case *ssa.Store:
-			if fa, ok := x.Addr.(*ssa.FieldAddr); ok && fieldName(fa.X.Type(), fa.Field) == kCIO+"cmdCount" {
-				n++
-				// same command as the loop element: take it from the isDuplicate fact
-				facts := fl.At(in)
-				ok := falseOf(facts, func(k string) bool { return strings.HasPrefix(k, kCIODup) })
-				c.Check(ok && fl.K.Key(x.Val) == "(p0->"+kCIO+"cmdCount + c:1)", "C06.2", "Exec: the command counter only for non-duplicates", p.InstrPos(in),
-					"cmdCount++ only under !isDuplicate(cmd)", "counter update not gated; facts: "+join(facts.Sorted()))
-				stateUpdates = append(stateUpdates, in)
-			}
+	execFns := map[*ssa.Function]bool{}
+	// Exec, or the helper of its package the per-command body was extracted into
+	for _, hf := range helperClosure(p, exec, 2) {
+		if hf == cc || hf == dup || hf == abort {
+			continue
 		}
-	})
+		execFns[hf] = true
+		exec := hf
+		fl := NewFlow(p, exec)
+		check := func(in ssa.Instruction, what, cmd string) {
+			facts := fl.At(in)
+			ok := falseOf(facts, is(kCIODup+cmd+")"))
+			c.Check(ok, "C06.2", "Exec: "+what+" only for non-duplicates", p.InstrPos(in),
+				what+" is reached only under !isDuplicate(cmd)", what+" reachable for an already executed (client id, sequence number); facts: "+join(facts.Sorted()))
+			stateUpdates = append(stateUpdates, in)
+		}
+		eachInstr(exec, func(in ssa.Instruction) {
+			switch x := in.(type) {
+			case *ssa.MapUpdate:
+				if fl.K.Key(x.Map) == "p0->"+kCIO+"lastExecutedSeqNum" {
+					n++
+					k, v := fl.K.Key(x.Key), fl.K.Key(x.Value)
+					cmd := strings.TrimSuffix(k, "->"+kCmd+"ClientID")
+					okKV := strings.HasSuffix(k, "->"+kCmd+"ClientID") && v == cmd+"->"+kCmd+"SequenceNumber"
+					c.Check(okKV, "C06.2", "Exec: records (client id -> sequence number) of the executed command", p.InstrPos(in),
+						"lastExecutedSeqNum[cmd.ClientID] = cmd.SequenceNumber", "update is ["+k+"] = "+v)
+					check(in, "the sequence-number record", cmd)
+				}
+			case *ssa.Call:
+				if x.Call.IsInvoke() && x.Call.Method.Name() == "Write" && fl.K.Key(x.Call.Value) == "p0->"+kCIO+"hash" {
+					n++
+					d := fl.K.Key(x.Call.Args[0])
+					check(in, "the state digest update", strings.TrimSuffix(d, "->"+kCmd+"Data"))
+				}
+			case *ssa.Store:
+				if fa, ok := x.Addr.(*ssa.FieldAddr); ok && fieldName(fa.X.Type(), fa.Field) == kCIO+"cmdCount" {
+					n++
+					// same command as the loop element: take it from the isDuplicate fact
+					facts := fl.At(in)
+					ok := falseOf(facts, func(k string) bool { return strings.HasPrefix(k, kCIODup) })
+					c.Check(ok && fl.K.Key(x.Val) == "(p0->"+kCIO+"cmdCount + c:1)", "C06.2", "Exec: the command counter only for non-duplicates", p.InstrPos(in),
+						"cmdCount++ only under !isDuplicate(cmd)", "counter update not gated; facts: "+join(facts.Sorted()))
+					stateUpdates = append(stateUpdates, in)
+				}
+			}
+		})
+	}
 	if n < 3 {
 		c.Unresolved("C06.2", "Exec", "expected digest, counter and sequence-number updates")
 	}
@@ -141,7 +150,7 @@ func checkC06(c *Ctx) {
 			continue
 		}
 		nNil++
-		okIn := r.In == exec
+		okIn := execFns[r.In]
 		okAfter := okIn
 		for _, u := range stateUpdates {
 			if !precedes(u, r.Instr) {
@@ -158,7 +167,7 @@ func checkC06(c *Ctx) {
 	var others []string
 	for _, r := range refs {
 		nm := shortName(declaredParent(r.In))
-		if nm != "(*hs/server.ClientIO).Exec" && nm != "(*hs/server.ClientIO).Abort" {
+		if nm != "(*hs/server.ClientIO).Exec" && nm != "(*hs/server.ClientIO).Abort" && !execFns[declaredParent(r.In)] {
 			others = append(others, nm)
 		}
 	}
